@@ -731,7 +731,11 @@ class C19(Prop):
             ans = parse_answer(a) or []
             for c in failing_clauses(a, b):
                 f = c.split(':')
-                if f[0] in ('E', 'NE') and f[1].isdigit() and int(f[1]) < len(kinds):
+                if f[0] in ('EU', 'WU'):
+                    out.add('%s:%s' % (f[0], bytes.fromhex(f[3]).decode()[:40] if len(f) > 3 else ''))
+                elif f[0] == 'W' and f[1].isdigit() and int(f[1]) < len(kinds):
+                    out.add('W@%s:%s' % (kinds[int(f[1])], bytes.fromhex(f[3]).decode()[:40] if len(f) > 3 else ''))
+                elif f[0] in ('E', 'NE') and f[1].isdigit() and int(f[1]) < len(kinds):
                     kind = kinds[int(f[1])]
                     if f[0] == 'E' and kind in ('tag', 'mtag'):
                         out.add('E@tagunits')
